@@ -216,6 +216,8 @@ fn check_detect(map: &MAny, cuts: &[u16], max_read: usize, obs: &mut Obs) -> Ver
         MAny::Hermes(_) => "detect:hermes",
         MAny::Index(_) => "detect:index",
     });
+    obs.class_if(bytes.len() > 8 << 20, "serialised>8MiB");
+    obs.class_if(bytes.len() > 48_000, "serialised>48KB");
     if map.token_count() >= 2 {
         obs.nontrivial();
     }
@@ -311,8 +313,68 @@ fn detect(t: Tier) -> BoxedStrategy<Case> {
         .boxed()
 }
 
+/// Maps whose serialised form is tens of kilobytes up to several megabytes (payload sizes
+/// around 48 KiB, 64 KiB and beyond the 8 MiB mark for detection).
+fn big_payloads(_t: Tier) -> BoxedStrategy<Case> {
+    let p = MMParams { max_tokens: 6, ..MMParams::regular(Tier::Quick) };
+    (
+        mm_strategy(p),
+        proptest::sample::select(vec![49_000usize, 49_149, 49_150, 49_151, 50_000, 65_534, 65_535, 65_536, 70_000, 131_072, 200_000]),
+        0usize..40,
+        any::<bool>(),
+    )
+        .prop_map(|(mut map, n, d, detect)| {
+            if map.sources.is_empty() {
+                map.sources.push("big.js".into());
+            }
+            map.contents = vec![Some("0123456789abcde\n".repeat((n + d) / 16 + 1))];
+            if detect {
+                Case::Detect { map: MAny::Regular(map), cuts: vec![], max_read: 0 }
+            } else {
+                Case::DataUrl { map, before: vec![(Line::Code("x();".into()), false)], after: vec![], legacy: false }
+            }
+        })
+        .boxed()
+}
+
+fn huge_detection(_t: Tier) -> BoxedStrategy<Case> {
+    (proptest::sample::select(vec![8_388_000usize, 8_388_608, 9_000_000]), 0u8..3)
+        .prop_map(|(n, kind)| {
+            let mut map = MM {
+                file: None,
+                root: None,
+                sources: vec!["huge.js".into()],
+                contents: vec![Some("0123456789abcde\n".repeat(n / 16 + 1))],
+                names: vec![],
+                tokens: vec![],
+                ignore: vec![],
+                debug_id: None,
+                route: Route::Raw,
+                json: JsonStyle::default(),
+            };
+            let any = match kind {
+                0 => MAny::Regular(map),
+                1 => {
+                    map.route = Route::Doc;
+                    MAny::Hermes(MHermes { map, fb: vec![None] })
+                }
+                _ => MAny::Index(MIndex {
+                    file: None,
+                    sections: vec![MSection { off: (0, 0), url: None, map: Some(MAny::Regular(map)) }],
+                    via_api: true,
+                    order: vec![0],
+                    style: JsonStyle::default(),
+                }),
+            };
+            Case::Detect { map: any, cuts: vec![], max_read: 0 }
+        })
+        .boxed()
+}
+
 fn subs() -> Vec<Sub> {
     vec![
+        gen_sub("big_payloads", big_payloads, |t| t.pick(60, 1_000), check),
+        gen_sub("huge_detection", huge_detection, |t| t.pick(4, 24), check),
         gen_sub("texts", texts, |t| t.pick(40_000, 1_000_000), check),
         gen_sub("data_urls", data_urls, |t| t.pick(6_000, 150_000), check),
         gen_sub("detection", detect, |t| t.pick(6_000, 150_000), check),
